@@ -1,10 +1,15 @@
 (* C01 - Compiled instruction table preserves the task-graph dataflow. Statements only.
-   PARTIAL: the theorems are about the reference denotation (Model/C01.v) - what executing the compiled table
-   must yield. The compiler's algorithm itself (Table.add, Linkage, alias merge, stub pruning) is not modelled;
-   flow.compile's real output is executed by an independent interpreter on every generated segment and compared
-   with this denotation (sink value, committed states, loaded offsets, every task run once). *)
+   Three layers: (1) the reference denotation of a segment (Model/C01.v) and its properties; (2) the symbol-table
+   validator of Model/C01Compile.v, proved sound for EVERY graph, asset accessor and table: an accepted table
+   evaluates (instruction semantics of target/user.py and target/system.py over free terms) at every node's functor
+   to the graph value, and at the committer to the states of the persistent groups at their list positions - the
+   correspondence run feeds it the table the real flow.compile emitted for every generated segment; (3) the
+   executable model of the compiler algorithm itself (Table.add / Linkage / Index / __iter__), which must emit
+   symbol for symbol the table the real compiler emits (correspondence).
+   PARTIAL: that the compiler MODEL's output is accepted by the validator for every graph and every traversal order
+   is not proved (it is checked by vm_compute for every generated segment, and for the witness below). *)
 Require Import List Bool ZArith.
-From FV Require Import Lib.Sym Model.C01 Proofs.C01.
+From FV Require Import Lib.Sym Model.C01 Proofs.C01 Model.C01Compile Proofs.C01Compile.
 Import ListNotations.
 
 (* every task is evaluated exactly once, and later tasks never change what earlier ones produced *)
@@ -40,6 +45,42 @@ Theorem C01_commit_positions : forall l e states,
        nth_error states i = Some (match lookup_gid g (trained e) with Some s => s | None => TNone end).
 Proof. exact committed_positions. Qed.
 Print Assumptions C01_commit_positions.
+
+(* translation validation: an accepted symbol table computes, at the functor symbol of every node, exactly what
+   direct evaluation of the task graph computes for that node (state of the sibling trained in the same run, else the
+   stored state, else none; inputs in port order; multi-output nodes split by getters) - for all graphs and tables *)
+Theorem C01_table_sound : forall a nodes t, validate a nodes t = true ->
+  forall i n, nth_error nodes i = Some n ->
+    exists p, pos t i = Some p
+      /\ forall fuel, 2 * i + 2 <= fuel -> eval fuel a nodes t p = Some (node_term a nodes i).
+Proof. exact validate_sound. Qed.
+Print Assumptions C01_table_sound.
+
+(* ... and node_term is what the consumers of that node see in the graph, port by port *)
+Theorem C01_port_value : forall a nodes i n p, nth_error nodes i = Some n -> is_train n = false -> p < nszout n ->
+  value (geval a nodes) (i, p) = match nszout n with 1 => node_term a nodes i | _ => TProj p (node_term a nodes i) end.
+Proof. exact port_value. Qed.
+Print Assumptions C01_port_value.
+
+(* the committer of an accepted table receives exactly the states trained in this run, one per persistent group at
+   its list position *)
+Theorem C01_commit_sound : forall a nodes t l c, a = Some l -> validate a nodes t = true -> valid_commit a nodes t = true ->
+  find_pos (fun s => match fst s with OCommitter => true | _ => false end) t = Some c ->
+  forall fuel, 2 * List.length nodes + 4 <= fuel -> eval fuel a nodes t c = Some (TTup (commit_states a nodes l)).
+Proof. exact commit_sound. Qed.
+Print Assumptions C01_commit_sound.
+
+(* non-vacuity: the compiler model's table for a fork group with a multi-output source under a persistent accessor,
+   visited fork-first, is accepted *)
+Example C01_compile_witness :
+  let nodes := [Node 0 0 0 false 2 (KApply []); Node 1 0 1 true 1 (KTrain (0, 0) (0, 1));
+                Node 1 0 1 true 1 (KApply [(0, 0)]); Node 2 0 2 false 1 (KApply [(2, 0); (0, 1)])]%nat%Z in
+  let a := Some [(1%nat, TNone)] in
+  match bind (compile a nodes [0; 2; 3; 1]%nat) canon with
+  | Some t => validate a nodes t && valid_commit a nodes t && Nat.eqb (List.length t) 9
+  | None => false
+  end = true.
+Proof. vm_compute. reflexivity. Qed.
 
 Example C01_witness :
   let nodes := [Node 0 0 0 false 2 (KApply []); Node 1 0 1 true 1 (KTrain (0, 0) (0, 1));
